@@ -112,6 +112,10 @@ def random_scenarios(n):
                 kind = r.choice(["hit", "hold"])
                 tgt.append({"t": t, "c": r.randint(0, 6), "n": r.choice([125, 125, 0]) if kind == "hold" else 0, "k": kind,
                             "hs": r.choice([0, 0, 2, 8]), "vol": r.choice([0, 25]), "file": r.choice(["", "", "t.wav"])})
+        if i % 3 == 1:
+            # near misses: target notes a fraction of a millisecond away from a sounded source time (as after a rate change)
+            for t in times:
+                tgt.append({"t": t + r.choice([0.4, -0.3, 0.25]), "c": r.randint(0, 6), "n": 0, "k": "hit", "hs": 0, "vol": 0, "file": ""})
         if not tgt:
             tgt.append({"t": 3000, "c": 0, "n": 0, "k": "hit", "hs": 0, "vol": 0, "file": ""})
         out.append({"id": f"r{i}", "src": src, "tgt": tgt, "sform": r.choice(FORMS), "tform": r.choice(FORMS)})
